@@ -45,6 +45,18 @@ def _units():
         fl = _FL2 if tag in ("f", "d", "s8", "i16") else {"quick": ["plain-cc"], "thorough": ["O0-cc", "plain-cc", "asan-cc"]}
         us.append(Unit(f"C13_elem_{tag}", "harness/C13_elem.cpp", defs=[f"-DC13_ELEM={e}", "-fconstexpr-ops-limit=1000000000"],
                        flavours=fl, shards=_SH))
+    # heterogeneous element / value types and heterogeneous element ranges (memchr / memcmp / memcpy style fast paths keyed
+    # on "byte-sized element, any integral value"): byte-sized element ranges x wider value types with a matching low byte
+    for e, tag in enumerate(("u8", "s8", "c8", "b")):
+        fl = _FL2 if tag in ("u8", "s8") else {"quick": ["plain-cc"], "thorough": ["O0-cc", "plain-cc", "asan-cc"]}
+        us.append(Unit(f"C13_het_{tag}", "harness/C13_het.cpp", defs=[f"-DC13_HEL={e}", "-fconstexpr-ops-limit=1000000000"], flavours=fl, shards=_SH))
+    # struct {key, tag} elements compared by key only (equal objects with different bytes; byte order != value order)
+    us.append(Unit("C13_elem_kt", "harness/C13_elem.cpp", defs=["-DC13_ELEM=8", "-fconstexpr-ops-limit=1000000000"],
+                   flavours={"quick": ["plain-cc"], "thorough": ["O0-cc", "plain-cc", "asan-cc"]}, shards=_SH))
+    # chrono with large tick counts: duration_cast/time_point_cast and floor/ceil/round over a (From, To) matrix of narrow reps,
+    # calendar arithmetic with large month / day / year counts
+    for g in range(3):
+        us.append(Unit(f"C13_chrono_g{g}", "harness/C13_chrono.cpp", defs=[f"-DC13_GRP={g}", "-fconstexpr-ops-limit=1000000000"], flavours=_FL2, shards=_SH))
     return us
 
 
